@@ -63,7 +63,10 @@ class ClohessyWiltshire(AnalyticalPropagator):
         """
 
         frame = orbit.as_frame(name, orientation=orientation)
-        return cls(orbit.infos.kep.a, frame="Hill")
+        # a Hill frame with the requested orientation, about the body of the target
+        # (frame="Hill" picked whichever Hill frame was created last, QSW by default)
+        hill = HillFrame(orientation=orientation, center=orbit.frame.center)
+        return cls(orbit.infos.kep.a, frame=hill)
 
     @property
     def n(self):
